@@ -334,6 +334,9 @@ pub fn show_result(r: Result<ArgMatches, clap::Error>) -> String {
 
 /// `(parse (cmd ...) (argv x.. x..))`
 pub fn parse(a: &[Sx]) -> String {
+    if a.len() != 2 {
+        return "badcase".into();
+    }
     let mut env = EnvGuard(vec![]);
     let cmd = match catch_unwind(AssertUnwindSafe(|| {
         let c = build_cmd(a[0].args(), &mut env);
